@@ -277,6 +277,9 @@ def triggers(node, acc):
         c = _core(node[1])
         if c[0] in ("diag", "pdiag"):
             acc.add("flipped_diag")
+            inner = node[1]
+            if inner[0] in ("adjoint", "inverse") and inner[0] != k:
+                acc.add("doubly_flipped_diag")
         if c[0] in ("chain", "add", "sub"):
             acc.add(f"flipped_{c[0] if c[0] == 'chain' else 'sum'}")
         triggers(node[1], acc)
@@ -439,14 +442,15 @@ def _diaglike(draw, uni, a, b, s):
         leaf = _leaf_M(draw, a, b)
         if leaf[0] not in ("scal", "block"):
             leaf = ["scal", draw(S.number(nonzero=True)), None, "M"]
-    w = draw(st.sampled_from([None, None, "adjoint", "inverse", "neg", "scale"]))
-    if w is None:
-        return leaf
-    if w == "scale":
-        return ["scale", draw(S.number(nonzero=True)), leaf]
-    if w == "inverse" and leaf[0] == "block":
-        return ["adjoint", leaf]
-    return [w, leaf]
+    # 0-2 wrappers, so that doubly flipped diagonals (adjoint-inverse, _trafo == 3) meet the merge rules too
+    for w in draw(st.lists(st.sampled_from(["adjoint", "inverse", "neg", "scale"]), max_size=2)):
+        if w == "scale":
+            leaf = ["scale", draw(S.number(nonzero=True)), leaf]
+        elif w == "inverse" and _core(leaf)[0] == "block":
+            leaf = ["adjoint", leaf]
+        else:
+            leaf = [w, leaf]
+    return leaf
 
 
 def _expr(draw, uni, a, b, s, d, depth):
